@@ -3,7 +3,7 @@
    input (lists of notes of any length, arbitrary maps, any divisions); none is a finite sample.
    The model (Model/C05.v) is tied to partitura's code by the correspondence run of
    harness/props/c05.py on every check. *)
-From PV Require Import Lib.Base Model.C05 Model.C05_Spec Proofs.C05_lib Proofs.C05_ties Proofs.C05.
+From PV Require Import Lib.Base Model.C05 Model.C05_Spec Model.C05_Ext Proofs.C05_lib Proofs.C05_ties Proofs.C05 Proofs.C05_ext.
 From Coq Require Import QArith Sorting.Sorted Permutation.
 #[local] Open Scope Z_scope.
 
@@ -143,3 +143,106 @@ Theorem divs_from_durations_only_insufficient :
     ~ inject_Z (to_div (lcm_list (map qden durs)) q) == q * inject_Z (lcm_list (map qden durs)).
 Proof. exact divs_from_durations_only_insufficient_lemma. Qed.
 Print Assumptions divs_from_durations_only_insufficient.
+
+(* ---------------------------------------------------------------------------------------------
+   added in the hardening round (Model/C05_Ext.v, Proofs/C05_ext.v)
+   --------------------------------------------------------------------------------------------- *)
+
+(* O1: a tie chain whose notes follow each other without a gap (ties over several measures) is one
+   row lasting from the onset of its first note to the end of its last note *)
+Theorem chain_contiguous_span : forall ns n l, tie_chain ns n l -> contiguous l ->
+  sum_dur l = n_end (last l n) - n_start n.
+Proof. exact chain_contiguous_span_lemma. Qed.
+Print Assumptions chain_contiguous_span.
+
+Theorem row_duration_contiguous : forall ns fuel n d, duration_tied ns fuel n = Some d ->
+  exists l, tie_chain ns n l /\ (contiguous l -> d = n_end (last l n) - n_start n).
+Proof. exact row_duration_contiguous_lemma. Qed.
+Print Assumptions row_duration_contiguous.
+
+(* O3: the view through which the correspondence compares voices (a voice that is not one of the stated
+   voices of the array is shown as -1) keeps every stated voice, shows exactly the notes without voice
+   as -1 and leaves every other column as optional_columns_spec describes it *)
+Theorem norm_voice_spec : forall ns mp divs rows, note_array_n ns mp divs = Some rows ->
+  forall r, In r rows ->
+  exists h d, In h (notes_tied (sounding ns)) /\ duration_tied ns (List.length ns) h = Some d /\
+    row_matches mp divs h d r /\
+    (forall v, n_voice h = Some v -> v <> -1 -> r_voice r = v) /\
+    (n_voice h = None -> r_voice r = -1).
+Proof. exact norm_voice_spec_lemma. Qed.
+Print Assumptions norm_voice_spec.
+
+Theorem norm_voice_rest_spec : forall ns mp divs rows, rest_array_n ns mp divs = Some rows ->
+  forall r, In r rows ->
+  exists h d, In h (filter n_rest ns) /\ duration_tied ns (List.length ns) h = Some d /\
+    row_matches mp divs h d r /\
+    (forall v, n_voice h = Some v -> v <> -1 -> r_voice r = v) /\
+    (n_voice h = None -> r_voice r = -1).
+Proof. exact norm_voice_rest_spec_lemma. Qed.
+Print Assumptions norm_voice_rest_spec.
+
+(* O5: the score array has exactly the rows of the part arrays *)
+Theorem score_row_count : forall uniq parts,
+  List.length (score_array uniq parts) = List.length (List.concat parts).
+Proof. exact score_row_count_lemma. Qed.
+Print Assumptions score_row_count.
+
+(* O5: with unique_id_per_part the ids of the score array are pairwise different as soon as they are
+   within each part (fewer than 100 parts: the two-digit format is in the statement) *)
+Theorem score_ids_unique : forall parts, (List.length parts < 100)%nat ->
+  Forall (fun p => NoDup (map r_id p)) parts ->
+  NoDup (map r_id (score_array true parts)).
+Proof. exact score_ids_unique_lemma. Qed.
+Print Assumptions score_ids_unique.
+
+(* ... and so does ANY prefix scheme in which no prefix is the beginning of another (what the direct
+   oracle demands of the implementation's prefixes, whatever their format) *)
+Theorem prefix_free_ids_distinct : forall a b s t,
+  ~ is_prefix a b -> ~ is_prefix b a -> (a ++ s)%string <> (b ++ t)%string.
+Proof. exact prefix_free_ids_distinct_lemma. Qed.
+Print Assumptions prefix_free_ids_distinct.
+
+(* O5, nested PartGroups (note_array_from_part_list calls itself on the children of a group and treats
+   the result as one member of the outer list), any depth: all rows carry one positive number of
+   divisions; every row comes from a row of one part with its position and duration in quarters preserved
+   exactly, the same pitch and voice, the part's divisions dividing the final ones, and an id that is the
+   part's id behind a (possibly empty; empty when no prefix was asked for) prefix; the final divisions
+   divide every common multiple of the parts' divisions (they are the least one); no row is lost or added *)
+Theorem nested_groups_spec : forall uniq t, Forall uniform (leaves t) ->
+  uniform (tree_array uniq t) /\
+  (forall r, In r (tree_array uniq t) -> exists p r0, In p (leaves t) /\ In r0 p /\ from_leaf_row uniq r r0) /\
+  (forall M, Forall (fun p => forall r0, In r0 p -> (r_divs r0 | M)) (leaves t) ->
+             forall r, In r (tree_array uniq t) -> (r_divs r | M)) /\
+  List.length (tree_array uniq t) = List.length (List.concat (leaves t)).
+Proof. exact tree_rows_lemma. Qed.
+Print Assumptions nested_groups_spec.
+
+(* the hypothesis is satisfiable: divisions 4, (6, -, 10) -> 60, prefixes P00_, P01_P00_, P01_P02_ *)
+Theorem nested_groups_example :
+  Forall uniform (leaves ex_tree) /\
+  map (fun r => (r_onset r, r_dur r, r_pitch r, r_id r, r_divs r)) (tree_array true ex_tree)
+  = [ (30, 30, 64, "P01_P00_n0", 60); (30, 60, 67, "P01_P02_n0", 60); (60, 30, 60, "P00_n0", 60) ]%string.
+Proof. exact ex_tree_array. Qed.
+Print Assumptions nested_groups_example.
+
+(* O7: ANY positive multiple of the lcm of all denominators makes every onset and duration an exact
+   number of divisions and converts back to the same value (the round trip needs no more than that) *)
+Theorem divs_multiple_exact : forall onsets durs d q,
+  (divs_from_beats onsets durs | d) -> In q (onsets ++ durs) ->
+  inject_Z (to_div d q) == q * inject_Z d.
+Proof. exact divs_multiple_exact_lemma. Qed.
+Print Assumptions divs_multiple_exact.
+
+Theorem divs_multiple_roundtrip : forall onsets durs d q,
+  0 < d -> (divs_from_beats onsets durs | d) -> In q (onsets ++ durs) ->
+  beat_of_div d (to_div d q) == q.
+Proof. exact divs_multiple_roundtrip_lemma. Qed.
+Print Assumptions divs_multiple_roundtrip.
+
+(* the checker of the create_divs_from_beats correspondence accepts exactly such divisions *)
+Theorem inverse_checker_sound : forall onsets durs d o du,
+  inverse_case_ok_m onsets durs (d, o, du) = true ->
+  0 < d /\ (divs_from_beats onsets durs | d) /\ du = map (to_div d) durs /\
+  o = shift_nonneg (map (to_div d) onsets).
+Proof. exact inverse_case_ok_m_sound. Qed.
+Print Assumptions inverse_checker_sound.
